@@ -51,6 +51,14 @@ pub fn programs() -> Vec<(&'static str, String)> {
         ("type function stored in an object", "name := \"abc\"\ntools := {\"size\": name->len, \"kind\": name->type, \"f\": fn () {\nreturn 1\n}}\nprint(\"start\")\nprint(tools.size())\n".to_string()),
         ("two different duplicated parameter names in patterns", "print(\"start\")\nfn area([width, height], {\"w\": width, \"h\": height}, depth, depth) {\n}\n".to_string()),
         ("error inside nested calls", "fn a1(x) {\nreturn b1(x)\n}\nfn b1(y) {\nreturn c1(y)\n}\nfn c1(z) {\nreturn z.missing\n}\nprint(\"start\")\na1({\"k\": 1})\n".to_string()),
+        ("syntax error where an operator could follow", "print(1)\nx := [10 20]\n".to_string()),
+        ("syntax error between arguments", "print(1)\nf(a b)\n".to_string()),
+        ("syntax error after an operand", "print(1)\nx := 1 2\n".to_string()),
+        ("syntax error in an object literal", "print(1)\nx := {\"a\" 1}\n".to_string()),
+        ("syntax error after a condition", "print(1)\nif true print(1)\n".to_string()),
+        ("syntax error at a keyword", "print(1)\nx := fn\n".to_string()),
+        ("syntax error at the end of the file", "print(1)\nx := (1 +".to_string()),
+        ("printing function values", "fn named(a) {\n}\nanon := fn () {\n}\nprint(named)\nprint(anon)\nprint([anon, fn (q) {\n}, named])\nprint({\"m\": anon, \"t\": \"s\"->len, \"p\": print})\nprint(1->type)\n".to_string()),
         ("for over an object built by collect", format!("{}{{k3, ..r}} := o\nfor [k, v] in r {{\nprint([k, v])\n}}\n{{k1, k2, ..s}} = r\nprint(s)\n", big).replace("{k1, k2, ..s} = r", "k1 := 0\nk2 := 0\ns := 0\n{k1, k2, ..s} = r")),
     ]
 }
@@ -204,7 +212,7 @@ enum V {
 }
 
 fn esc(s: &str) -> String {
-    s.replace('\\', "\\\\").replace('"', "\\\"").replace('\n', "\\n")
+    s.replace('\\', "\\\\").replace('"', "\\\"").replace('\n', "\\n").replace('\r', "\\r").replace('$', "\\$")
 }
 
 impl V {
@@ -419,7 +427,10 @@ impl Check for C19 {
                     }
                 }
             }
-            if base.stdout != r.stdout || r.is_ok() != (base.code == Some(0)) || !(base.code == Some(0) || base.code == Some(103)) {
+            // how a function value is rendered is not fixed by the statement: only its run-to-run
+            // identity is checked there
+            let fn_text = pname.contains("function values");
+            if (base.stdout != r.stdout && !fn_text) || r.is_ok() != (base.code == Some(0)) || !(base.code == Some(0) || base.code == Some(103)) {
                 let c = Case::new(src.clone(), 1, format!("program {:?}", pname));
                 let o = Outcome { class: if base.code == Some(0) { Class::Ok } else { Class::Err }, stdout: base.stdout.clone(), msg: base.stderr.clone() };
                 ctx.report(&c, Some(&r), &o, "output", format!("{:?}: printed {:?} (exit {:?}), reference {:?}", pname, String::from_utf8_lossy(&base.stdout), base.code, String::from_utf8_lossy(&r.stdout)));
@@ -454,6 +465,29 @@ impl Check for C19 {
                 if ctx.over_cap() {
                     break;
                 }
+            }
+        }
+        // the same with every kind of atom and with strings whose line structure matters to the
+        // indentation (empty, ending in a line break, CR LF, blank lines, only a line break)
+        let rich: Vec<V> = vec![
+            V::Null,
+            V::Bool(true),
+            V::Int(-5),
+            V::Str(String::new()),
+            V::Str("end\n".into()),
+            V::Str("a\r\nb".into()),
+            V::Str("\n".into()),
+            V::Str("x\n\ny\n\n".into()),
+            V::Str(" pad ".into()),
+            V::Str("é,".into()),
+            V::Str("\"q\": [".into()),
+        ];
+        let rkeys = ["", "k\r\nq\n"];
+        for v in skeletons(2, &rich, &rkeys) {
+            batch.push(value_case(&v, 0));
+            n_values += 1;
+            if batch.len() >= 100_000 {
+                ctx.judge(std::mem::take(&mut batch), |c, r, o| self.oracle(c, r, o))?;
             }
         }
         // wide family and atoms
